@@ -544,7 +544,7 @@ pub fn run(tier: Tier) -> i32 {
         v.extend(gen::family_matrix(0));
         v
     } else {
-        gen::universe(0)
+        gen::universe_quick()
     };
     let parts: Vec<Stats> = specs.par_iter().map(|s| part1(s, level.min(1))).collect();
     let mut p1 = Stats::default();
